@@ -9,3 +9,11 @@ META["C08"] = dict(
          "the model is tied to the code by an exact differential check (boundary-heavy generated tuples, Result built directly and from recorded outcomes, real CLI runs), so an edit that changes the verdict on any sampled input is reported with that input.",
     note="Trusted: Coq kernel; extraction (ExtrOcamlBasic) + ocaml/driver.ml; the Go harness and overlay build; Go uint64 arithmetic modelled on Z (no wrap-around below 2^63/100 iterations). The theorem is about the model; the differential check samples the correspondence.",
 )
+
+META["C12"] = dict(
+    design_ref="DESIGN.md section 5, C12",
+    technique="Coq proof by induction over sub-ticks and cycles (invariant acc = i*rate mod N) for all N, rate sequences and random sources; exact differential correspondence of api.NewDistribution against the extracted stepper, property predicate dist_ok on disagreement",
+    text="Theorems C12_regular, C12_random, C12_passthrough, C12_cycle_length: for every cycle length N>=1, every non-negative time-varying rate oracle, every non-negative random source and any number of cycles, each cycle of the modelled stepper sums exactly to its rate, is non-negative, evaluates the underlying rate once and (regular) is even; <=100ms and 'none' are the identity. "
+         "Refuted/C12_pinned.v machine-checks that the pinned float accumulator violated this (witness in the corpus). The stepper is tied to the code by exact per-sub-tick differential testing with scripted oracles.",
+    note="Trusted: Coq kernel; extraction + driver; Go harness; no int wrap-around (rate*1 + acc < 2^63). The rate function and random source are oracles (Section-style parameters), so the theorem holds for any behaviour of theirs within the stated sign constraints.",
+)
